@@ -28,8 +28,22 @@ theorem run_model_outputs (m : Model α) (b : Backend) (solve : (List α → α 
   obtain ⟨dd, _, h1, _⟩ := h
   exact ⟨x0, hx, h1.symm⟩
 
+
+/-- `one_step(p, t, x)` with explicit time and state is one evaluation of the right-hand side (`Run.step`, whose rates are the documented
+per-flow laws: `C01.step_eq_spec`, and whose translation from the source is `C01Rates.generated_rates_eq_step`) -/
+theorem one_step_explicit (m : Model α) (b : Backend) (params : List (String × α)) (t : α) (x : List α) :
+    one_step m b params (some t) (some x) = step m b params t x := rfl
+
+/-- with the defaults it is evaluated at the first model time and the initial population under the same parameters -/
+theorem one_step_defaults (m : Model α) (b : Backend) (params : List (String × α)) :
+    one_step m b params none none = (initialPopulation m params).bind (fun x0 => step m b params ((modelTimes m).getD 0 0) x0) := by
+  unfold one_step
+  cases initialPopulation m params <;> rfl
+
 end
 
+#print axioms one_step_explicit
+#print axioms one_step_defaults
 #print axioms run_model_eq
 #print axioms run_model_outputs
 
